@@ -65,6 +65,16 @@ RULE_TZ = ['EST5EDT,M3.2.0/2,M11.1.0/2',            # northern
 _TZ_RE = re.compile(r'^([A-Za-z]{3,})([+-]?\d+(?::\d+)?)(?:([A-Za-z]{3,})([+-]?\d+(?::\d+)?)?,(M\d+\.\d\.\d)(?:/(\d+))?,(M\d+\.\d\.\d)(?:/(\d+))?)?$')
 
 
+
+_MLEN = (31, 28, 31, 30, 31, 30, 31, 31, 30, 31, 30, 31)
+
+
+def _mlen(y, m):
+    """Days in month m of year y - own arithmetic, NOT calendar.monthrange: the oracle must not share mutable
+    standard-library state (calendar.mdays is a plain list) with the code under test (seeded change c15p)."""
+    return 29 if m == 2 and y % 4 == 0 and (y % 100 != 0 or y % 400 == 0) else _MLEN[m - 1]
+
+
 def _off_s(txt):
     sign = -1 if txt.startswith('-') else 1
     txt = txt.lstrip('+-')
@@ -78,7 +88,7 @@ def _mwd(year, spec):
     first = datetime.date(year, m, 1)
     first_dow = (first.weekday() + 1) % 7          # Sunday = 0
     day = 1 + (d - first_dow) % 7 + (w - 1) * 7
-    last = calendar.monthrange(year, m)[1]
+    last = _mlen(year, m)
     while day > last:
         day -= 7
     return datetime.date(year, m, day)
@@ -138,17 +148,17 @@ def _anchor_instants(r, n):
         k = r.random()
         if k < 0.25:      # month ends of every length class
             m = r.randint(1, 12)
-            d = calendar.monthrange(y, m)[1] - r.choice([0, 0, 1])
+            d = _mlen(y, m) - r.choice([0, 0, 1])
         elif k < 0.40:    # February
             m = 2
-            d = r.choice([27, 28, calendar.monthrange(y, 2)[1]])
+            d = r.choice([27, 28, _mlen(y, 2)])
         elif k < 0.50:    # year end / start
             m, d = r.choice([(12, 31), (1, 1), (12, 30)])
         elif k < 0.60:    # first days
             m, d = r.randint(1, 12), r.choice([1, 2])
         else:
             m = r.randint(1, 12)
-            d = r.randint(1, calendar.monthrange(y, m)[1])
+            d = r.randint(1, _mlen(y, m))
         h = r.choice([0, 0, 23, 23, 12, r.randint(0, 23)])
         mi = r.choice([0, 59, 59, 0, r.randint(0, 59)])
         sec = r.choice([0, 58, 59, 1, r.randint(0, 59)])
@@ -470,7 +480,7 @@ def _exec_invariance(plan):
         if prev is not None:
             sim_time += abs(t['ns'] - prev['ns']) / 1e9
             pl = local_date(prev['tz'], prev['ns'])
-            if calendar.monthrange(pl.year, pl.month)[1] != calendar.monthrange(ld.year, ld.month)[1]:
+            if _mlen(pl.year, pl.month) != _mlen(ld.year, ld.month):
                 probe('month_length_class_changed')
                 feats.add('month-class')
             if (pl.year, pl.month) != (ld.year, ld.month):
@@ -664,7 +674,7 @@ def _gen_calendar(seed, cfg):
         start = datetime.datetime(sy, 2, 29)
     elif k < 0.6:
         m = r.randint(1, 12)
-        start = datetime.datetime(sy, m, calendar.monthrange(sy, m)[1])
+        start = datetime.datetime(sy, m, _mlen(sy, m))
     else:
         start = datetime.datetime(sy, r.randint(1, 12), r.randint(1, 28))
     if to_ns(start) > center - span_days * DAY * 10**9:
@@ -719,9 +729,9 @@ def _gen_calendar(seed, cfg):
                 base = EPOCH + datetime.timedelta(seconds=now // 10**9)
                 y = base.year + r.choice([0, 0, 1, -1])
                 y = min(max(y, 1972), 2098)
-                m, d = r.choice([(2, calendar.monthrange(y, 2)[1]), (12, 31), (1, 1), (3, 1), (r.randint(1, 12), 0)])
+                m, d = r.choice([(2, _mlen(y, 2)), (12, 31), (1, 1), (3, 1), (r.randint(1, 12), 0)])
                 if d == 0:
-                    d = calendar.monthrange(y, m)[1]
+                    d = _mlen(y, m)
                 now = to_ns(datetime.datetime(y, m, d, r.choice([0, 12, 23]), r.choice([0, 59]), r.choice([0, 59])))
             elif j < 0.85 and swarm['rule_zones'] and tz in RULE_TZ:
                 # straddle a DST transition of the current zone
@@ -764,12 +774,12 @@ def _add_months(d, k):
 
 def x_edate(d, k):
     y, m = _add_months(d, k)
-    return datetime.datetime(y, m, min(d.day, calendar.monthrange(y, m)[1]))
+    return datetime.datetime(y, m, min(d.day, _mlen(y, m)))
 
 
 def x_eomonth(d, k):
     y, m = _add_months(d, k)
-    return datetime.datetime(y, m, calendar.monthrange(y, m)[1])
+    return datetime.datetime(y, m, _mlen(y, m))
 
 
 def x_date(y, m, d):
@@ -783,7 +793,7 @@ def x_months(s, e):
     clamping sense is accepted too)."""
     m = (e.year - s.year) * 12 + (e.month - s.month) - (1 if e.day < s.day else 0)
     out = {m}
-    if e.day < s.day and e.day == calendar.monthrange(e.year, e.month)[1]:
+    if e.day < s.day and e.day == _mlen(e.year, e.month):
         out.add(m + 1)
     return out
 
